@@ -607,8 +607,8 @@ def routes_cases(chk, rng, box):
         else: segs = rng.choice(box)
         if not segs or not valid(FAM[fam], segs): segs = ROUTE_SPECIALS[0]
         return fam, {st: segs}, st
-    n_routes = 20000 if chk.thorough else 1500
-    n_readd = 40000 if chk.thorough else 4000
+    n_routes = 10000 if chk.thorough else 1000
+    n_readd = 20000 if chk.thorough else 2500
     for k in range(n_routes + n_readd):
         fam, segs_by_state, fixed = pick_probe()
         d = FAM[fam]
